@@ -34,14 +34,14 @@ enum ProbeId { P_item_by_file, P_item_by_env, P_item_by_argv, P_all_three_source
                P_word_needed_quoting, P_style_backslash, P_style_single, P_style_double, P_style_mixed,
                P_comment_or_empty_line, P_multi_value_in_file_line, P_override_file_argv, P_override_env_argv,
                P_read_returned_one_byte, P_file_via_flag, P_file_via_argument, P_env_default_name, P_env_named,
-               P_several_items_on_one_line, P_file_line_evaluated, P_nested_argument_file, P_env_names_argument_file, P_value_list_continued, P_cardinality_only_difference };
+               P_several_items_on_one_line, P_file_line_evaluated, P_nested_argument_file, P_env_names_argument_file, P_value_list_continued };
 const char* const kProbeNames[] = { "item_delivered_by_file", "item_delivered_by_env", "item_delivered_by_argv",
                "all_three_sources_in_one_run", "both_runs_returned", "both_runs_threw", "word_needed_quoting",
                "style_backslash", "style_single_quotes", "style_double_quotes", "style_mixed", "comment_or_empty_line_skipped",
                "multi_value_words_in_file_line", "override_file_then_argv", "override_env_then_argv", "read_returned_one_byte",
                "file_via_program_name_flag", "file_via_argument", "env_default_name", "env_named", "several_items_on_one_line",
                "file_line_evaluated", "argument_file_includes_another_file", "environment_variable_names_argument_file",
-               "value_list_continued_on_next_line_or_source", "argv_rejected_for_cardinality_only" };
+               "value_list_continued_on_next_line_or_source" };
 
 std::string upper( std::string s)
 {
@@ -545,7 +545,7 @@ public:
          // environment for the cardinality (that is what makes the override
          // possible): a line that argv rejects for its cardinality only may be
          // accepted through the sources. Not a statement about C07.
-         st.probe( P_cardinality_only_difference);
+         ++st.misc[ "argv_rejected_for_cardinality_only_sources_accepted"];
       }
       else if (x.threw != y.threw)
          res.fail( "VIOLATION", "D1-outcome", std::string( "words on argv ") + (x.threw ? "are rejected (" + x.what + ")" : "are accepted")
